@@ -61,11 +61,11 @@ for fn in sorted(glob.glob(f'{root}/benign/*/meta.json')):
     others = m.get('other_monitors_quick_exit', {})
     verdict = 'silent' if mr['silent'] else '**alarm**'
     if mr.get('exit') == 2: verdict = 'inconclusive (coverage obligations unmet, no alarm) ³'
-    elif m.get('history'): verdict = 'false alarm at first, oracle corrected ²'; n_alarm += 1
+    elif m.get('history'): verdict = 'alarm (own or another monitor) or inconclusive at first, monitor corrected ²'; n_alarm += 1
     o = (', '.join(sorted(others)) + ': ' + ('all silent' if all(v == 0 for v in others.values()) else 'see meta.json')) if others else '-'
     brows.append(f"| {m['id']} | {m['property']} | {m['what']} | {verdict} | {o} |")
 out.append("")
-out.append(f"**Benign changes ({len(brows)} confirmed: observable behaviour changes, the property as stated still holds; {n_alarm} raised a false alarm at first and led to a corrected oracle).**\n")
+out.append(f"**Benign changes ({len(brows)} confirmed: observable behaviour changes, the property as stated still holds; {n_alarm} raised a false alarm - or an inconclusive verdict - in their own or another monitor at first and led to a corrected monitor).**\n")
 out.append("| benign change | property | what changes | own monitor (quick) | other monitors run against it (quick) |\n|---|---|---|---|---|")
 out += brows
 text = "\n".join(out) + "\n"
